@@ -1,6 +1,8 @@
 // C01/C06/C07/C08 driver: compute_shell_pair (and optionally derivative blocks) for two shells and one
 // ECP, as the library selects and with individual decisions forced the other way (hooks).
 // extra keys per case:  deriv 0|1|2   modes "d nt ns nsnt" (subset)
+// mode fq: tail cut and screens off, and the closed form bypassed ONLY for primitive pairs with min(a*A, b*B) < 1
+// (the region the recorded finding F-C12-closedform is about); closed-form cases with a*A, b*B >= 1 stay closed-form.
 #include "vh.hpp"
 #include "verif_hooks.hpp"
 using namespace vh;
@@ -20,7 +22,7 @@ int main(int argc, char** argv) {
     struct Mode { const char* tag; bool nt, ns, cont, fq; int site; };
     Mode modes[] = {{"d", false, false, false, false}, {"nt", true, false, false, false}, {"ns", false, true, false, false}, {"nsnt", true, true, false, false}, {"all", true, true, true, false}, {"fq", true, true, true, true}, {"nsl", false, false, false, false, 1}, {"nsp", false, false, false, false, 2}};
     for (auto& m : modes) {
-      verif::ctl() = verif::Ctl(); verif::ctl().no_tail_cut = m.nt; verif::ctl().no_screen = m.ns; verif::ctl().continue_after_nonconv = m.cont; verif::ctl().force_quadrature = m.fq; verif::ctl().no_screen_l = (m.site == 1); verif::ctl().no_screen_prim = (m.site == 2);
+      verif::ctl() = verif::Ctl(); verif::ctl().no_tail_cut = m.nt; verif::ctl().no_screen = m.ns; verif::ctl().continue_after_nonconv = m.cont; verif::ctl().force_quadrature_below = m.fq ? 1.0 : 0.0; verif::ctl().no_screen_l = (m.site == 1); verif::ctl().no_screen_prim = (m.site == 2);
       TwoIndex<double> v; eng.compute_shell_pair(U, A, B, v);
       put_mat(f, std::string("v_") + m.tag, v);
       if (std::string(m.tag) == "d") put_trace(f);
